@@ -60,8 +60,58 @@ static void putFile(const std::string &bytes)
   }
 }
 
+// Resource monitor: readXML must leave the process as it found it whether it returns or throws.
+// The number of open descriptors is sampled around calls (cheap: counting /proc/self/fd every
+// 64th call and around the first calls); growth means a stream was left open.
+static int countOpenFds()
+{
+  int n = 0;
+  for (int fd = 0; fd < 1024; ++fd)
+    if (fcntl(fd, F_GETFD) != -1)
+      ++n;
+  return n;
+}
+static long g_parseCalls = 0;
+static int g_fdBaseline  = -1;
+static bool g_fdLeakReported = false;
+static void checkFdLeak(const std::string &bytes, int rc)
+{
+  ++g_parseCalls;
+  if (g_fdLeakReported || !(g_parseCalls <= 4 || (g_parseCalls & 63) == 0))
+    return;
+  int now = countOpenFds();
+  if (g_fdBaseline < 0)
+    g_fdBaseline = now;
+  else if (now > g_fdBaseline) {
+    g_fdLeakReported = true;
+    std::string p;
+    char b[8];
+    for (size_t i = 0; i < bytes.size() && p.size() < 300; ++i) {
+      unsigned char c = (unsigned char)bytes[i];
+      if (c >= 0x20 && c < 0x7f && c != '\\')
+        p += (char)c;
+      else {
+        snprintf(b, sizeof b, "\\x%02x", c);
+        p += b;
+      }
+    }
+    vh::violation("C16:readXML:file-left-open", std::to_string(now - g_fdBaseline) + " more open file descriptor(s) than before after " + std::to_string(g_parseCalls) +
+                      " readXML calls of this process (streams are not closed on some path; last call " + (rc == 0 ? "returned" : "threw") + ")",
+                  "last input: " + p);
+  }
+}
+
 // returns 0 = document returned, 1 = std::runtime_error, 2 = other std::exception, 3 = something else
+static int parseBytesImpl(const std::string &bytes, xml::XMLDoc *out, std::string *what);
 static int parseBytes(const std::string &bytes, xml::XMLDoc *out, std::string *what)
+{
+  if (g_fdBaseline < 0 && g_parseCalls == 0)
+    g_fdBaseline = countOpenFds();
+  int rc = parseBytesImpl(bytes, out, what);
+  checkFdLeak(bytes, rc);
+  return rc;
+}
+static int parseBytesImpl(const std::string &bytes, xml::XMLDoc *out, std::string *what)
 {
   putFile(bytes);
   try {
